@@ -49,7 +49,8 @@ class ToolError(Exception):
 
 
 class HangDetected(Exception):
-    """A call into the code under test did not return within the harness's limit (record printed by the watchdog)."""
+    """A call into the code under test did not return within the harness's limit (record printed by the watchdog), or
+    panicked in the repository's code outside any call the harness wraps (record "unguarded_panic")."""
     def __init__(self, record, args):
         Exception.__init__(self, "code under test did not return: %s" % json.dumps(record))
         self.record = record
@@ -295,9 +296,9 @@ def run_harness(args, timeout=900, stdin_path=None, env=None, capture=True):
     finally:
         if stdin:
             stdin.close()
-    if p.returncode == 3:
+    if p.returncode in (3, 4):
         for line in p.stderr.splitlines():
-            if line.startswith("{") and '"hang"' in line:
+            if line.startswith("{") and ('"hang"' in line or '"unguarded_panic"' in line):
                 try:
                     raise HangDetected(json.loads(line), args)
                 except ValueError:
